@@ -173,3 +173,32 @@ Example inv_timer_may_dangle :
     dt4 = (fst dt4, []) /\ d_timers (fst dt4) = [] /\
     option_map (fun i => (inv_canceled i, inv_timer i)) (cget (d_invs (fst dt4)) (11, 1)) = Some (true, Some 2).
 Proof. vm_compute. repeat split; reflexivity. Qed.
+
+(** ** C12, dealer half: non-vacuity of [invocation_disclose_iff] / [call_disclose_refused] *)
+Definition cfg_nodisclose : config := mkConfig false false false false false false [] None.
+Definition dm_opts : dict := [("disclose_me", VBool true)].
+
+Example disclose_ex :
+    (* disclose_me, realm allows it, callee 11 has caller_identification: caller, authid, authrole disclosed *)
+    (exists d' c det, call cfg0 (lk 0 0) 5 d2s s10 7 dm_opts "com.x" [] [] 0 = CallInvoked d' c [(11, RInvocation 1 19 det [] [])] /\
+        dget det "caller" = Some (vid 10) /\ dget det "caller_authid" = Some (vstr gen_authid) /\
+        dget det "caller_authrole" = Some (vstr "anonymous")) /\
+    (* the same towards callee 12 (no caller_identification): nothing disclosed *)
+    (exists d' c det, call cfg0 (lk 1 0) 6 d3 s10 8 dm_opts "com.x" [] [] 0 = CallInvoked d' c [(12, RInvocation 1 19 det [] [])] /\
+        dget det "caller" = None /\ dget det "caller_authid" = None /\ dget det "caller_authrole" = None) /\
+    (* not asked: nothing disclosed *)
+    (exists d' c det, call cfg0 (lk 0 0) 5 d2s s10 7 [] "com.x" [] [] 0 = CallInvoked d' c [(11, RInvocation 1 19 det [] [])] /\
+        dget det "caller" = None) /\
+    (* realm does not allow disclosure: refused, nothing recorded *)
+    (exists d', call cfg_nodisclose (lk 0 0) 5 d2s s10 7 dm_opts "com.x" [] [] 0 =
+                CallRefused d' [(10, RError c_CALL 7 [] e_disclose_me [] [])] /\ d_calls d' = [] /\ d_invs d' = []) /\
+    (* a registration with disclose_caller (the meta procedures) always discloses *)
+    (exists d' c det a k, call cfg_nodisclose (lk 0 0) 5 d2s s10 7 [] "wamp.session.count" [] [] 0 =
+                CallInvoked d' c [(1, RInvocation 1 1 det a k)] /\ dget det "caller" = Some (vid 10)).
+Proof.
+  split; [eexists; eexists; eexists; vm_compute; repeat split; reflexivity|].
+  split; [eexists; eexists; eexists; vm_compute; repeat split; reflexivity|].
+  split; [eexists; eexists; eexists; vm_compute; repeat split; reflexivity|].
+  split; [eexists; vm_compute; repeat split; reflexivity|].
+  eexists; eexists; eexists; eexists; eexists; vm_compute; repeat split; reflexivity.
+Qed.
